@@ -178,6 +178,13 @@ class Program:
         self.saved_hooks = list(zi.adapter_hooks)
         self.serial = 0
 
+    pending = None
+
+    def run_pending(self):
+        p_, self.pending = self.pending, None
+        if p_ is not None:
+            p_()
+
     def make_custom(self):
         out = []
         mod = self.mod
@@ -889,7 +896,66 @@ class Program:
         rng = self.rng
         o = rng.choice(self.odd)
         I = self.iface()
-        k = rng.choice(['pb', 'ipb', 'adapt', 'qa', 'dp', 'ib', 'getspec', 'descr', 'pbmut'])
+        k = rng.choice(['pb', 'ipb', 'adapt', 'qa', 'dp', 'ib', 'getspec', 'descr', 'pbmut', 'overlap'])
+        if k == 'overlap':
+            # a registration that lands right after an uncached computation has finished and before its answer is stored
+            # (a registry of a subclass whose lookup class extends _uncached_lookup*): what the interrupted call returns is
+            # C11's business and is not traced; what the next calls return is
+            if not hasattr(self, 'hreg'):
+                base_cls = type(self.regs[1])
+                prog = self
+
+                class HookedLookup(base_cls.LookupClass):
+                    def _uncached_lookup(self_, required, provided, name=''):
+                        r = base_cls.LookupClass._uncached_lookup(self_, required, provided, name)
+                        prog.run_pending()
+                        return r
+
+                    def _uncached_lookupAll(self_, required, provided):
+                        r = base_cls.LookupClass._uncached_lookupAll(self_, required, provided)
+                        prog.run_pending()
+                        return r
+
+                    def _uncached_subscriptions(self_, required, provided):
+                        r = base_cls.LookupClass._uncached_subscriptions(self_, required, provided)
+                        prog.run_pending()
+                        return r
+
+                class HookedRegistry(base_cls):
+                    LookupClass = HookedLookup
+                self.hreg = HookedRegistry((self.regs[0],))
+            hreg = self.hreg
+            req1, prov1 = (self.iface(),), self.iface()
+            v = self.newval()
+            v.ret = True
+            how = rng.choice(['lookup', 'lookup1', 'lookupAll', 'subscriptions', 'queryAdapter'])
+            if how == 'subscriptions':
+                self.pending = lambda: hreg.subscribe(req1, prov1, v)
+            else:
+                self.pending = lambda: hreg.register(req1, prov1, '', v)
+
+            def ask():
+                if how == 'lookup':
+                    return hreg.lookup(req1, prov1, '')
+                if how == 'lookup1':
+                    return hreg.lookup1(req1[0], prov1, '')
+                if how == 'lookupAll':
+                    return sorted(map(R, hreg.lookupAll(req1, prov1)))
+                if how == 'subscriptions':
+                    return sorted(map(R, hreg.subscriptions(req1, prov1)))
+                ob_ = rng.choice(self.objs)
+                return hreg.lookup1(providedBy(ob_), prov1, '')
+            try:
+                ask()
+            except Exception:
+                pass
+            ran = self.pending is None
+            self.pending = None
+            self.emit('overlap.%s ran=%s' % (how, ran), lambda: None)
+            self.emit('overlap.%s [next call]' % how, ask)
+            self.emit('overlap.lookup [next call]', lambda: hreg.lookup(req1, prov1, ''))
+            self.emit('overlap.subscriptions [next call]', lambda: sorted(map(R, hreg.subscriptions(req1, prov1))))
+            return
         if k == 'pbmut':
             # an object whose declaration is computed, and computing it changes the registry that is adapting the object
             # (the factory for this very key is replaced): the answer is asked before, during and after
